@@ -7,16 +7,19 @@ import (
 	"context"
 	"fmt"
 	"github.com/google/mtail/internal/exporter"
+	mtailruntime "github.com/google/mtail/internal/runtime"
 	"math"
+	"os"
 	"regexp"
 	"sort"
 	"strconv"
 	"strings"
+	"sync"
 	"time"
 
+	"github.com/google/mtail/internal/logline"
 	"github.com/google/mtail/internal/metrics"
 	"github.com/google/mtail/internal/metrics/datum"
-	"github.com/google/mtail/internal/logline"
 	"github.com/google/mtail/internal/runtime/compiler"
 	"github.com/google/mtail/internal/runtime/vm"
 )
@@ -175,7 +178,108 @@ func c21Obs(b *datum.Buckets) string {
 	return fmt.Sprintf("counts=%s count=%d sum=%s", strings.Join(s, ","), b.GetCount(), canonBits(b.GetSum()))
 }
 
+// c21Reload: a histogram is reloaded with other boundaries, the declaration where it was (same
+// number of boundaries or not): afterwards its observations are counted against the new ones,
+// each in exactly one bucket, and the exported upper bounds are the new declaration's.
+func c21Reload(b1, b2 string, keyed bool) (bool, string) {
+	dir, err := os.MkdirTemp("", "c21reload")
+	if err != nil {
+		return true, "skip"
+	}
+	defer os.RemoveAll(dir)
+	lines := make(chan *logline.LogLine)
+	store := metrics.NewStore()
+	var wg sync.WaitGroup
+	rt, err := mtailruntime.New(lines, &wg, dir, store)
+	if err != nil {
+		return false, "runtime.New: " + err.Error()
+	}
+	src := func(b string) string {
+		if keyed {
+			return "histogram h by k buckets " + b + "\ncounter n\n/^(\\w+) (\\d+\\.\\d+)$/ {\n  h[$1] = $2\n  n++\n}\n"
+		}
+		return "histogram h buckets " + b + "\ncounter n\n/^(\\w+) (\\d+\\.\\d+)$/ {\n  h = $2\n  n++\n}\n"
+	}
+	count := func() int64 {
+		var v int64 = -1
+		_ = store.Range(func(m *metrics.Metric) error {
+			if m.Name == "n" && len(m.LabelValues) > 0 {
+				v = datum.GetInt(m.LabelValues[0].Value)
+			}
+			return nil
+		})
+		return v
+	}
+	sent := int64(0)
+	send := func(vals ...string) {
+		for _, v := range vals {
+			lines <- logline.New(context.Background(), "log", "a "+v)
+			sent++
+		}
+		deadline := time.Now().Add(10 * time.Second)
+		for count() < sent && time.Now().Before(deadline) {
+			time.Sleep(200 * time.Microsecond)
+		}
+	}
+	if err := rt.CompileAndRun("p.mtail", strings.NewReader(src(b1))); err != nil {
+		return false, "load: " + err.Error()
+	}
+	send("0.5", "3.0", "100.0")
+	if err := rt.CompileAndRun("p.mtail", strings.NewReader(src(b2))); err != nil {
+		return false, "reload: " + err.Error()
+	}
+	send("15.0", "0.5")
+	note := ""
+	_ = store.Range(func(m *metrics.Metric) error {
+		m.RLock()
+		defer m.RUnlock()
+		if m.Name != "h" {
+			return nil
+		}
+		for _, lv := range m.LabelValues {
+			b, ok := lv.Value.(*datum.Buckets)
+			if !ok {
+				continue
+			}
+			for i := range m.Buckets {
+				if i >= len(b.Buckets) || b.Buckets[i].Range != m.Buckets[i] {
+					note = fmt.Sprintf("reloaded with buckets %s after %s: declared %v, data counted in %v", b2, b1, m.Buckets, b.Buckets)
+					return nil
+				}
+			}
+			var total uint64
+			for _, bc := range b.Buckets {
+				total += bc.Count
+			}
+			if b1 != b2 && (total != 2 || b.Count != 2) {
+				note = fmt.Sprintf("reloaded with buckets %s after %s: two observations since, the buckets hold %d and the count is %d", b2, b1, total, b.Count)
+			}
+		}
+		return nil
+	})
+	close(lines)
+	fin := make(chan struct{})
+	go func() { wg.Wait(); close(fin) }()
+	select {
+	case <-fin:
+	case <-time.After(3 * time.Second):
+	}
+	return note == "", note
+}
+
 func c21Run(r *runCtx, id string, f []string) {
+	if f[0] == "reload" {
+		ok, note := c21Reload(strings.ReplaceAll(f[1], "_", " "), strings.ReplaceAll(f[2], "_", " "), f[3] == "1")
+		r.stat("reload")
+		r.obs(id, "-")
+		if !ok {
+			r.replay(id, f...)
+			r.fail(id, "reload-keeps-old-boundaries", "%s", note)
+		} else {
+			r.ok(id)
+		}
+		return
+	}
 	switch f[0] {
 	case "direct":
 		var ranges []datum.Range
@@ -464,6 +568,10 @@ func c21Run(r *runCtx, id string, f []string) {
 func init() {
 	props["C21"] = &propImpl{
 		gen: func(g *genCtx) {
+			for _, pr := range [][2]string{{"1,_2,_4", "10,_20,_40"}, {"1,_2,_4", "1,_2,_8"}, {"1,_2,_4", "1,_2,_4,_8"}, {"10,_20,_40", "1,_2"}, {"1,_2,_4", "1,_2,_4"}} {
+				g.emit("reload", pr[0], pr[1], "0")
+				g.emit("reload", pr[0], pr[1], "1")
+			}
 			grid := []float64{-2, -1, 0, 0.5, 1, 2, 4, 1e-7, 1000000.5}
 			dec := func(v float64) string { return strconv.FormatFloat(v, 'f', -1, 64) }
 			valuesFor := func(bounds []float64) []float64 {
